@@ -844,104 +844,226 @@ func dropDeadClosures(nf *ssa.Function) {
 	}
 }
 
-// forwardStructLoads: a local struct that is filled field by field (a composite literal) and then
-// read as a whole — passed by value to an inlined helper or method with a value receiver — has its
-// field reads `Field(*a, i)` replaced by the value stored to field i, when that store is the only
-// one to the field, dominates the load, and nothing else can write the struct (its address is only
-// used for field addresses, whole loads and debug info). Fields never stored read as zero.
+// forwardStructLoads resolves reads of the fields of local struct values that are only ever built
+// and copied: a struct filled field by field (a composite literal) and read as a whole, passed by
+// value to an inlined helper or to a method with a value receiver (go/ssa spills such a parameter
+// into a fresh local and reads its fields from there), or returned by value from an inlined
+// constructor. A read of field i is replaced by the value stored to field i of the struct the copy
+// chain starts from, when that store is the only one to the field and dominates the read, and
+// nothing else can write the structs involved (their addresses are only used for field addresses,
+// whole loads, whole stores of such values, and debug info). Fields never stored read as zero.
 // Requires referrers and dominators (finish). Returns whether anything changed.
 func forwardStructLoads(nf *ssa.Function) bool {
+	type shape struct {
+		ok          bool
+		fieldStores map[int][]*ssa.Store
+		fieldLoads  map[int][]*ssa.UnOp
+		wholeStores []*ssa.Store
+		wholeLoads  []*ssa.UnOp
+		st          *types.Struct
+	}
+	shapes := map[*ssa.Alloc]*shape{}
+	shapeOf := func(a *ssa.Alloc) *shape {
+		if sh, ok := shapes[a]; ok {
+			return sh
+		}
+		sh := &shape{fieldStores: map[int][]*ssa.Store{}, fieldLoads: map[int][]*ssa.UnOp{}}
+		shapes[a] = sh
+		st, isStruct := a.Type().Underlying().(*types.Pointer).Elem().Underlying().(*types.Struct)
+		if !isStruct || a.Referrers() == nil {
+			return sh
+		}
+		sh.st = st
+		sh.ok = true
+		for _, r := range *a.Referrers() {
+			switch x := r.(type) {
+			case *ssa.FieldAddr:
+				if x.X != ssa.Value(a) || x.Referrers() == nil {
+					sh.ok = false
+					continue
+				}
+				for _, u := range *x.Referrers() {
+					switch y := u.(type) {
+					case *ssa.Store:
+						if y.Addr != ssa.Value(x) {
+							sh.ok = false
+						} else {
+							sh.fieldStores[x.Field] = append(sh.fieldStores[x.Field], y)
+						}
+					case *ssa.UnOp:
+						if y.Op != token.MUL {
+							sh.ok = false
+						} else {
+							sh.fieldLoads[x.Field] = append(sh.fieldLoads[x.Field], y)
+						}
+					case *ssa.DebugRef:
+					default:
+						sh.ok = false // the address of a field escapes
+					}
+				}
+			case *ssa.UnOp:
+				if x.Op == token.MUL && x.X == ssa.Value(a) {
+					sh.wholeLoads = append(sh.wholeLoads, x)
+				} else {
+					sh.ok = false
+				}
+			case *ssa.Store:
+				if x.Addr == ssa.Value(a) && x.Val != ssa.Value(a) {
+					sh.wholeStores = append(sh.wholeStores, x)
+				} else {
+					sh.ok = false
+				}
+			case *ssa.DebugRef:
+			default:
+				sh.ok = false
+			}
+		}
+		return sh
+	}
+	dominates := func(s ssa.Instruction, l ssa.Instruction) bool {
+		if s.Block() == l.Block() {
+			for _, x := range s.Block().Instrs {
+				if x == s {
+					return true
+				}
+				if x == l {
+					return false
+				}
+			}
+		}
+		return s.Block().Dominates(l.Block())
+	}
+	// fieldAt: the value of field i of alloc a as seen by the instruction at
+	var fieldAt func(a *ssa.Alloc, i int, at ssa.Instruction, depth int) ssa.Value
+	// fieldOf: field i of the struct value S
+	var fieldOf func(S ssa.Value, i int, depth int) ssa.Value
+	fieldAt = func(a *ssa.Alloc, i int, at ssa.Instruction, depth int) ssa.Value {
+		sh := shapeOf(a)
+		if !sh.ok || depth > 6 {
+			return nil
+		}
+		switch {
+		case len(sh.wholeStores) == 0:
+			switch ss := sh.fieldStores[i]; len(ss) {
+			case 0:
+				return ssa.NewConst(nil, sh.st.Field(i).Type())
+			case 1:
+				if dominates(ss[0], at) {
+					return ss[0].Val
+				}
+			}
+		case len(sh.wholeStores) == 1 && len(sh.fieldStores[i]) == 0:
+			if dominates(sh.wholeStores[0], at) {
+				return fieldOf(sh.wholeStores[0].Val, i, depth+1)
+			}
+		}
+		return nil
+	}
+	fieldOf = func(S ssa.Value, i int, depth int) ssa.Value {
+		if depth > 6 {
+			return nil
+		}
+		if l, ok := S.(*ssa.UnOp); ok && l.Op == token.MUL {
+			if a, ok := l.X.(*ssa.Alloc); ok {
+				return fieldAt(a, i, l, depth)
+			}
+		}
+		return nil
+	}
 	changed := false
 	for _, b := range nf.Blocks {
-		for _, in := range b.Instrs {
+		for _, in := range append([]ssa.Instruction(nil), b.Instrs...) {
+			switch x := in.(type) {
+			case *ssa.Field:
+				if v := fieldOf(x.X, x.Field, 0); v != nil {
+					replaceUses(nf, x, v)
+					removeInstr(x.Block(), map[ssa.Instruction]bool{x: true})
+					changed = true
+				}
+			case *ssa.UnOp:
+				if x.Op != token.MUL {
+					continue
+				}
+				fa, ok := x.X.(*ssa.FieldAddr)
+				if !ok {
+					continue
+				}
+				a, ok := fa.X.(*ssa.Alloc)
+				if !ok {
+					continue
+				}
+				// only copies are read through: a struct with field stores of its own keeps its loads
+				// unless the store is unique and dominates (handled by fieldAt)
+				if v := fieldAt(a, fa.Field, x, 0); v != nil && v != ssa.Value(x) {
+					replaceUses(nf, x, v)
+					removeInstr(x.Block(), map[ssa.Instruction]bool{x: true})
+					changed = true
+				}
+			}
+		}
+	}
+	return changed
+}
+
+// dropDeadStructs removes local structs that are only written (their reads have been forwarded):
+// the alloc, its field addresses, the stores to them and whole stores into it.
+func dropDeadStructs(nf *ssa.Function) bool {
+	changed := false
+	for _, b := range nf.Blocks {
+		for _, in := range append([]ssa.Instruction(nil), b.Instrs...) {
 			a, ok := in.(*ssa.Alloc)
 			if !ok || a.Referrers() == nil {
 				continue
 			}
-			st, ok := a.Type().Underlying().(*types.Pointer).Elem().Underlying().(*types.Struct)
-			if !ok {
+			if _, isStruct := a.Type().Underlying().(*types.Pointer).Elem().Underlying().(*types.Struct); !isStruct {
 				continue
 			}
-			okShape := true
-			stores := map[int][]*ssa.Store{}
-			var loads []*ssa.UnOp
+			dead := map[ssa.Instruction]bool{a: true}
+			onlyWritten := true
 			for _, r := range *a.Referrers() {
 				switch x := r.(type) {
 				case *ssa.FieldAddr:
-					if x.X != ssa.Value(a) || x.Referrers() == nil {
-						okShape = false
-						break
-					}
-					for _, u := range *x.Referrers() {
-						switch y := u.(type) {
-						case *ssa.Store:
-							if y.Addr != ssa.Value(x) {
-								okShape = false // the field address itself is stored somewhere
-							} else {
-								stores[x.Field] = append(stores[x.Field], y)
+					dead[x] = true
+					if x.Referrers() != nil {
+						for _, u := range *x.Referrers() {
+							switch y := u.(type) {
+							case *ssa.Store:
+								if y.Addr != ssa.Value(x) {
+									onlyWritten = false
+								}
+								dead[y] = true
+							case *ssa.DebugRef:
+								dead[y] = true
+							default:
+								onlyWritten = false
 							}
-						case *ssa.UnOp:
-							if y.Op != token.MUL {
-								okShape = false
-							}
-						case *ssa.DebugRef:
-						default:
-							okShape = false // address of a field escapes (call, closure …)
 						}
 					}
-				case *ssa.UnOp:
-					if x.Op == token.MUL && x.X == ssa.Value(a) {
-						loads = append(loads, x)
-					} else {
-						okShape = false
+				case *ssa.Store:
+					if x.Addr != ssa.Value(a) {
+						onlyWritten = false
 					}
+					dead[x] = true
 				case *ssa.DebugRef:
+					dead[x] = true
 				default:
-					okShape = false
+					onlyWritten = false
 				}
 			}
-			if !okShape || len(loads) == 0 {
+			if !onlyWritten {
 				continue
 			}
-			dominates := func(s ssa.Instruction, l ssa.Instruction) bool {
-				if s.Block() == l.Block() {
-					for _, x := range s.Block().Instrs {
-						if x == s {
-							return true
-						}
-						if x == l {
-							return false
-						}
-					}
-				}
-				return s.Block().Dominates(l.Block())
+			for _, blk := range nf.Blocks {
+				removeInstr(blk, dead)
 			}
-			for _, l := range loads {
-				if l.Referrers() == nil {
-					continue
-				}
-				for _, u := range append([]ssa.Instruction(nil), *l.Referrers()...) {
-					f, isField := u.(*ssa.Field)
-					if !isField || f.X != ssa.Value(l) {
-						continue
-					}
-					var val ssa.Value
-					switch ss := stores[f.Field]; len(ss) {
-					case 0:
-						val = ssa.NewConst(nil, st.Field(f.Field).Type())
-					case 1:
-						if dominates(ss[0], l) {
-							val = ss[0].Val
-						}
-					}
-					if val == nil {
-						continue
-					}
-					replaceUses(nf, f, val)
-					removeInstr(f.Block(), map[ssa.Instruction]bool{f: true})
-					changed = true
+			var loc []*ssa.Alloc
+			for _, l := range nf.Locals {
+				if l != a {
+					loc = append(loc, l)
 				}
 			}
+			nf.Locals = loc
+			changed = true
 		}
 	}
 	return changed
